@@ -6,6 +6,7 @@ SPEC = {
         "shims": {},
         "runs": [{"args": [], "corpus": ""}],
     },
+    "skip_model_prefix": ["sched"],
     "rule": ("case = one history of session events on 1-4 nodes sharing one store; every node is a real SessionManager with "
              "its own connstate.Store, driven through CreateConnection / HandlePacket(Handshake|Heartbeat) / CloseConnection "
              "(fake transport and auth handler); after EVERY event EVERY node is asked FindClientNode for every watched client "
